@@ -263,7 +263,11 @@ auto whenAnyTuple(Invoker& invoker, Futures&&... futures) -> Future<size_t> {
       --idx;
       future.wait();
       size_t expected = SIZE_MAX;
-      shared->winner.compare_exchange_strong(expected, idx, std::memory_order_acq_rel);
+      if (shared->winner.compare_exchange_strong(expected, idx, std::memory_order_acq_rel)) {
+        // We took the claim the .then callbacks compete for, so none of them will run shared->f;
+        // run it here to release the reference it holds on the result (its run() is a no-op now).
+        shared->f();
+      }
       return false; // one input resolved ⇒ winner is now set; stop iterating.
     });
     return shared->winner.load(std::memory_order_acquire);
@@ -318,7 +322,11 @@ Future<size_t> whenAnyIterators(Invoker& invoker, InputIt first, InputIt last) {
     // non-empty here (the empty range returned above).
     shared->vec[0].wait();
     size_t expected = SIZE_MAX;
-    shared->winner.compare_exchange_strong(expected, size_t{0}, std::memory_order_acq_rel);
+    if (shared->winner.compare_exchange_strong(expected, size_t{0}, std::memory_order_acq_rel)) {
+      // We took the claim the .then callbacks compete for, so none of them will run shared->f;
+      // run it here to release the reference it holds on the result (its run() is a no-op now).
+      shared->f();
+    }
     return shared->winner.load(std::memory_order_acquire);
   };
 
